@@ -558,6 +558,9 @@ def negotiate_unrestricted(
     result_cx, result_roles = negotiate_as_acceptor(
         non_storage_contexts, ac_contexts, roles
     )
+    # Keep the role selection replies for the non-storage contexts
+    for item in result_roles:
+        reply_roles[cast(UID, item.sop_class_uid)] = item
 
     # Accept all storage-like contexts
     for rcx in storage_contexts:
